@@ -954,6 +954,10 @@ class Interp:
                     for n in c.body:
                         if isinstance(n, ast.Assign) and any(isinstance(t, ast.Name) and t.id == name for t in n.targets):
                             return self.ev(n.value, self.module_env(m))
+            if getattr(obj, "partial", False):
+                # an object the harness made describes only the state the contract talks about: code that reads other state
+                # of it is outside the contract (undecided; the unit's scenario replay decides), not an AttributeError
+                raise Undecided(f"the code reads {obj.name}.{name}, state the contract of this unit does not describe")
             raise SymRaise(ExcVal("AttributeError", (f"{obj.name} has no attribute {name}",)))
         if isinstance(obj, V):
             return self.theories["__getattr__"](self, obj, name)
